@@ -43,7 +43,7 @@ FORBIDDEN = re.compile(
 PROPS = {
     "C01": dict(streams=["tbl", "fix", "sdt"], exhaustive="",
                 nontrivial="history with at least one operation"),
-    "C02": dict(streams=["tbl", "fix", "sdt"], exhaustive="", nontrivial="history with at least one operation"),
+    "C02": dict(streams=["tbl", "fix", "sdt", "misc"], exhaustive="", nontrivial="history with at least one operation"),
     "C03": dict(streams=["tbl", "fix"], exhaustive="", nontrivial="history with at least one add"),
     "C04": dict(streams=["ent", "tbl", "fix", "misc"], exhaustive="",
                 nontrivial="any entry / any history with an operation"),
@@ -65,7 +65,7 @@ PROPS = {
     "C13": dict(streams=["sdt"], exhaustive="all op sequences of length <= 2 (3 in the thorough tier) over a 34-op alphabet on a 40-byte table; every declared length 0..80",
                 nontrivial="at least one operation"),
     "C14": dict(streams=["ent", "aml", "sdt", "cks"], exhaustive="", nontrivial="any object"),
-    "C15": dict(streams=["amlalt"], exhaustive="body sizes 0..4200 (every size near 63/64 and 4095/4096; every 7th elsewhere in the quick tier, all in the thorough tier)",
+    "C15": dict(streams=["amlalt", "misc"], exhaustive="body sizes 0..4200 (every size near 63/64 and 4095/4096; every 7th elsewhere in the quick tier, all in the thorough tier)",
                 nontrivial="non-empty body"),
     "C18": dict(streams=["tblbig", "amlbig", "path", "pkglen", "fix", "ent"], profiles=["release", "dev"],
                 both_profiles=["tblbig", "amlbig", "path", "pkglen", "fix"], exhaustive="",
